@@ -185,8 +185,15 @@ func canonLarge(out *cq.Out, rng *cq.Rng, seed uint64, tier string) {
 		}
 		return evs
 	}
+	first := true
 	for len(events) < n {
 		evs := mk(100 + rng.Intn(200))
+		if first {
+			// one bulk several times larger than the history tree's write cache (300 nodes): subtree roots frozen early in
+			// the bulk are still needed hundreds of events later, before anything of the bulk reaches the store
+			evs = mk(700 + rng.Intn(300))
+			first = false
+		}
 		sa := a.add(evs, false)
 		sb := b.add(evs, false)
 		if a.addPanic != "" || b.addPanic != "" || len(sa) != len(sb) {
